@@ -21,6 +21,8 @@ import traceback
 
 
 def simple(v, d=0):
+    if isinstance(v, int) and not isinstance(v, bool) and v.bit_length() > 256:
+        return "<int of %d bits, %d mod 1000003>" % (v.bit_length(), v % 1000003)
     if isinstance(v, (bool, int, str, float, type(None))):
         return repr(v)
     if isinstance(v, (list, tuple)) and d < 3:
